@@ -163,6 +163,33 @@ func (fc *FuncCtx) call(fr *Frame, st *State, res ssa.Value, call *ssa.CallCommo
 		fc.addObl(fr, st, "nil", fc.srcAt(fr, pos), Neq(args[0].T, IntLit(0)), pos, "method call on nil interface")
 		st.assume(Neq(args[0].T, IntLit(0)))
 	}
+	// assert_at clauses of the function under contract that name this call
+	if fr.isTop && fc.contract != nil && len(fc.contract.Asserts) > 0 {
+		cn := fullName(callee)
+		fc.callCount[cn]++
+		key := fmt.Sprintf("%s#%d", cn, fc.callCount[cn])
+		for _, as := range fc.contract.Asserts {
+			if as.Name != key {
+				continue
+			}
+			env := fc.envFor(fr, st, nil, true)
+			for i, a := range args {
+				if a.T != nil {
+					var pt types.Type
+					if i < callee.Signature.Params().Len() {
+						pt = callee.Signature.Params().At(i).Type()
+					}
+					env.vars[fmt.Sprintf("arg%d", i)] = SVal{T: a.T, Typ: pt}
+				}
+			}
+			t, err := env.ElabBool(as.Expr)
+			if err != nil {
+				panic(elabErr{fmt.Sprintf("%s:%d: assert_at %s: %v", fc.contract.File, as.Line, key, err)})
+			}
+			fc.addSplit(fr, st, "assert_at", key+":"+as.Text, t, pos, "assertion at the call of "+cn)
+			fc.assertSeen[key] = true
+		}
+	}
 	// 1. extern model
 	if ext := fc.p.externFor(callee); ext != nil {
 		fc.note("assumed contract for " + fullName(callee))
